@@ -118,6 +118,7 @@ func sortedParams(m map[string]string) []string {
 
 func newC11World(u c11Universe, routes map[int][]string) *c11World {
 	w := &c11World{u: u, c: restful.NewContainer()}
+	w.c.Filter(w.c.OPTIONSFilter) // OPTIONS probes: the computed method lists must follow every change
 	for i, root := range u.Roots {
 		ws := new(restful.WebService).Path(root)
 		ws.SetDynamicRoutes(true)
@@ -309,6 +310,9 @@ func c11Probes(u c11Universe) []c11Probe {
 			for _, m := range []string{"GET", "POST"} {
 				add(h.Req{Method: m, Segs: append(append([]string{}, segs...), last)}, -1)
 			}
+		}
+		for _, last := range []string{"p", "q"} {
+			add(h.Req{Method: "OPTIONS", Segs: append(append([]string{}, segs...), last)}, -1)
 		}
 		for _, acc := range []string{"application/xml", "application/json"} {
 			add(h.Req{Method: "GET", Segs: append(append([]string{}, segs...), "q"), Hdr: [][2]string{{"Accept", acc}}}, -1)
